@@ -11,7 +11,10 @@ EXTENDS Integers, Sequences, FiniteSets, TLC, Json, CSV, IOUtils
 
 Listeners == {"anon", "auth"}
 KeyFiles == {"empty", "blank-lines", "comments-only", "one-key", "several-keys"}     \* authorized_keys shapes
-ClientKeys == {"listed-ed25519", "listed-ecdsa", "unlisted-ed25519", "unlisted-ecdsa", "unlisted-rsa", "forged-cert"}
+\* a client may offer SEVERAL keys on one connection: "borrowed" is the public half of a listed key, offered by somebody
+\* who cannot sign for it, before or between the client's own unlisted keys - what counts is the key that signs
+ClientKeys == {"listed-ed25519", "listed-ecdsa", "unlisted-ed25519", "unlisted-ecdsa", "unlisted-rsa", "forged-cert",
+               "borrowed-then-unlisted", "unlisted-then-borrowed"}
 Lists(kf) == kf \in {"one-key", "several-keys"}
 IsListed(kf, k) == /\ Lists(kf)
                    /\ \/ k = "listed-ed25519"
